@@ -117,10 +117,11 @@ class Gen:
         for _ in range(r.randint(1, 3)):
             k = r.random()
             # text inside embedded SVG / MathML is left alone: a style or script there is not raw text to the parser, and text with
-            # '&' or '<' in it is the listed finding C09-foreign-cdata, which has its own replay
+            # '&' or '<' in it is the listed finding C09-foreign-cdata, which has its own replay; likewise the raw text of iframe /
+            # xmp / noembed / noframes (listed findings C01-rawtext, C02-rawtext: '&' or '<' in it comes back escaped too often)
             def foreign(i):
                 before = ''.join(t for t in toks[:i] if t.startswith('<'))
-                return before.count('<svg') > before.count('</svg>') or before.count('<math') > before.count('</math>')
+                return any(before.count('<' + n) > before.count('</' + n + '>') for n in ('svg', 'math', 'iframe', 'xmp', 'noembed', 'noframes'))
             idxs = [i for i, t in enumerate(toks) if not t.startswith('<') and t.strip() and not foreign(i)]
             if k < 0.35 and idxs:          # change words in a text run
                 i = r.choice(idxs)
